@@ -313,6 +313,40 @@ def laws():
             return Case(_vres(_asvec(kd, d), [sp.diff(c, t, order) for c in _asvec(ke, e)]), assume=assume)
         return Case([canon(d - sp.diff(e, t, order))], assume=assume)
 
+    # vector functions DECLARED with formal arguments but applied to another parameter: r = VectorFunction("r", arguments=(tau,)); r(t)
+    # depends on t, whatever the declaration names
+    @law("_eval_derivative/function-declared-with-formal-arguments-applied-to-another-parameter",
+         [(op, tx) for op in ("plain", "scale", "dot", "cross", "norm", "sum") for tx in ("f(t)",)],  # f(2*t) / f(t, t): the library raises NotImplementedError (VectorSubs), nothing to judge
+         ["AppliedVectorFunction._eval_derivative", "VectorDot._eval_derivative", "VectorCross._eval_derivative", "VectorNorm._eval_derivative"])
+    def _(s, g):
+        op, tx = s
+        V = _V()
+        t = g.var("t")
+        tau, sig = sp.Symbol("tau", real=True), sp.Symbol("sigma", real=True)
+        if tx == "f(t,t)":
+            f1 = V.VectorFunction("f1", arguments=(tau, sig))
+            X = f1(t, t)
+        else:
+            f1 = V.VectorFunction("f1", arguments=(tau,))
+            X = f1(t) if tx == "f(t)" else f1(2 * t)
+        g2 = V.VectorFunction("g2", arguments=(tau,))
+        Y = g2(t)
+        env = Env(g)
+        env.names[f1], env.names[g2] = "F0", "F1"
+        kf = g.fun("kf", [t])
+        E = {"plain": lambda: X, "scale": lambda: kf * X, "dot": lambda: V.VectorDot(X, Y), "cross": lambda: V.VectorCross(X, Y),
+             "norm": lambda: V.VectorNorm(X), "sum": lambda: X + Y}[op]()
+        D = sp.sympify(E).diff(t)
+        kd, d = sem(D, env)
+        ke, e = sem(E, env)
+        assume = []
+        if op == "norm":
+            x = _asvec(*sem(X, env))
+            assume = [sp.Gt(dot3(x, x), 0)]
+        if ke == "v" or kd == "v":
+            return Case(_vres(_asvec(kd, d), [sp.diff(c, t) for c in _asvec(ke, e)]), assume=assume)
+        return Case([canon(d - sp.diff(e, t))], assume=assume)
+
     return out
 
 
